@@ -16,6 +16,7 @@ import (
 	"github.com/gopacket/gopacket/layers"
 
 	"verif/sim"
+	"verif/sim/bubble"
 )
 
 var base = time.Date(2022, 2, 2, 2, 2, 2, 0, time.UTC)
@@ -678,9 +679,141 @@ func simC13v6(c *sim.Ctx) {
 	}
 }
 
-var sims = map[string]sim.SimFunc{"c13v4": simC13v4, "c13v6": simC13v6}
+// simC13v6clock: the IPv6 defragmenter stamps its lists with time.Now(), so
+// "partial datagrams older than a cut-off are forgotten on request" needs a
+// clock the simulation owns: the run happens inside a synctest bubble, where
+// time.Now() is the bubble's fake clock and time.Sleep advances it. Datagrams
+// are fed fragment by fragment, the clock advances in between, and
+// DiscardOlderThan is called with cut-offs in the past and ahead of the clock
+// (never equal to a time of activity). The model forgets what the cut-off
+// covers: a forgotten partial datagram cannot be completed by its remaining
+// fragments nor leak bytes into a later datagram with the same
+// identification; one that is not covered still completes.
+func simC13v6clock(c *sim.Ctx) {
+	type dgram struct {
+		id      uint32
+		payload []byte
+		cuts    []int // fragment boundaries: 0 = cuts[0] < ... < cuts[n] = len
+		fed     int   // fragments fed so far (in order of a drawn permutation)
+		order   []int
+		have    map[int]bool // fragments the defragmenter still knows (model)
+		last    time.Time    // last activity on this identification
+		done    bool
+	}
+	bubble.Run(c, func(b *bubble.B) {
+		d := ip6defrag.NewIPv6Defragmenter()
+		var live []*dgram
+		idBusy := map[uint32]*dgram{} // identification -> datagram whose list the defragmenter may still hold
+		nextID := uint32(7000)
+		mk := func() *dgram {
+			// an identification is reused only when the model says its list is gone
+			id := uint32(0)
+			for cand := uint32(7000); cand < nextID; cand++ {
+				if idBusy[cand] == nil && c.Chance(600) {
+					id = cand
+					c.Fault("identification_reused")
+					break
+				}
+			}
+			if id == 0 {
+				id = nextID
+				nextID++
+			}
+			n := 24 + 8*c.Draw(20)
+			g := &dgram{id: id, payload: fill(uint64(id)*131+uint64(c.Tape.Used()), n), have: map[int]bool{}}
+			g.cuts = []int{0}
+			for o := 8 * (1 + c.Draw(3)); o < n; o += 8 * (1 + c.Draw(4)) {
+				g.cuts = append(g.cuts, o)
+			}
+			g.cuts = append(g.cuts, n)
+			nf := len(g.cuts) - 1
+			for i := 0; i < nf; i++ {
+				g.order = append(g.order, i)
+			}
+			for i := nf - 1; i > 0; i-- {
+				j := c.Draw(i + 1)
+				g.order[i], g.order[j] = g.order[j], g.order[i]
+			}
+			idBusy[id] = g
+			return g
+		}
+		live = append(live, mk())
+		for step := 0; step < 40; step++ {
+			var open []*dgram
+			for _, g := range live {
+				if !g.done && g.fed < len(g.order) {
+					open = append(open, g)
+				}
+			}
+			switch c.Weighted(6, 3, 2, 2) {
+			case 0: // next fragment of some datagram
+				if len(open) == 0 {
+					if len(live) >= 4 {
+						return
+					}
+					live = append(live, mk())
+					continue
+				}
+				g := open[c.Draw(len(open))]
+				k := g.order[g.fed]
+				g.fed++
+				lo, hi := g.cuts[k], g.cuts[k+1]
+				ip := &layers.IPv6{Version: 6, TrafficClass: 2, FlowLabel: 5, NextHeader: layers.IPProtocolIPv6Fragment, HopLimit: 9,
+					SrcIP: net.ParseIP("fd00::1"), DstIP: net.ParseIP("fd00::2")}
+				fg := &layers.IPv6Fragment{NextHeader: layers.IPProtocolUDP, FragmentOffset: uint16(lo / 8), MoreFragments: hi < len(g.payload), Identification: g.id}
+				fg.Payload = g.payload[lo:hi]
+				c.Ev("frag6", int64(g.id), int64(lo), int64(hi-lo))
+				out := d.DefragIPv6(ip, fg)
+				g.have[k] = true
+				g.last = time.Now()
+				idBusy[g.id] = g
+				complete := len(g.have) == len(g.cuts)-1
+				if out != nil {
+					if !complete {
+						c.Fail("ipv6", "early", "DefragIPv6", "id %d: datagram returned although the defragmenter can only know %d of its %d fragments (the others were fed before a DiscardOlderThan that covered them, or not yet)", g.id, len(g.have), len(g.cuts)-1)
+					}
+					if !bytes.Equal(out.Payload, g.payload) {
+						c.Fail("ipv6", "wrong-payload", "DefragIPv6", "id %d: rebuilt payload (%d bytes) differs from the original (%d bytes)", g.id, len(out.Payload), len(g.payload))
+					}
+					g.done = true
+					c.Probe("ipv6_reassembled_on_simulated_clock")
+				} else if complete {
+					c.Fail("ipv6", "not-returned", "DefragIPv6", "id %d: all %d fragments fed since the last discard that covered it, nothing returned", g.id, len(g.cuts)-1)
+				}
+			case 1: // time passes
+				dt := time.Duration(1+c.Draw(30)) * 10 * time.Millisecond
+				time.Sleep(dt)
+				c.Advance(dt)
+			case 2, 3: // forget what is older than a cut-off
+				var cut time.Time
+				if c.Chance(300) {
+					cut = time.Now().Add(time.Hour + 5*time.Millisecond) // "everything": a cut-off ahead of the clock
+					c.Fault("discard_cutoff_ahead_of_clock")
+				} else {
+					cut = time.Now().Add(-time.Duration(c.Draw(40))*10*time.Millisecond - 5*time.Millisecond)
+					c.Fault("discard_timer")
+				}
+				d.DiscardOlderThan(cut)
+				c.Ev("discard6", int64(time.Until(cut)/time.Millisecond))
+				for id, g := range idBusy {
+					if g != nil && g.last.Before(cut) {
+						// forgotten: whatever was fed so far is gone
+						g.have = map[int]bool{}
+						idBusy[id] = nil
+						if !g.done && g.fed > 0 {
+							c.Probe("partial_ipv6_datagram_forgotten")
+						}
+					}
+				}
+			}
+		}
+	})
+}
+
+var sims = map[string]sim.SimFunc{"c13v4": simC13v4, "c13v6": simC13v6, "c13v6clock": simC13v6clock}
 
 func TestChild(t *testing.T) {
+	bubble.T = t
 	if !sim.ChildMain(sims) {
 		t.Skip("not a child")
 	}
